@@ -263,6 +263,11 @@ def oracle_lines(ctx, mid, spec, sizes, info, fields, sigs, nkey):
         L.append("cp %d %d %d %d %s" % (k1, k2, k3, sig, F))
         if i % 5 == 0:
             L.append("fill %d %d %s" % (k3, rng.randint(5, 90) * 100000, F))
+    # invalid signatures must end in mju_error (documented: "invalid state signature")
+    big = 1 << nstate
+    for sg in (-1, -2147483648, big, big + 1, 2147483647):
+        L += ["size %d" % sg, "get 0 %d" % sg, "set 1 %d 1 2 3" % sg, "copy 0 1 %d" % sg, "extract %d 0" % sg]
+    L += ["extract 1 2 5", "extract 3 -1 1 2 3"]
     L.append("reset 0 %d %s" % (rng.randint(1, 9) * 1000, F))
     L.append("reset 1 %d %s" % (rng.randint(1, 9) * 1000, F))
     for idx in list(range(nkey)) + [-1, nkey, nkey + 3]:
@@ -330,6 +335,13 @@ class Oracle:
         self.checked += 1
         self.byop[op] = self.byop.get(op, 0) + 1
         kv = parse_kv(out)
+        if op in ("size", "get", "set", "copy", "extract"):
+            sg = int(w[1] if op in ("size", "extract") else w[-1] if op == "copy" else w[2])
+            nst = int(mi.get("nstate", 0))
+            want = "error:sigNeg" if sg < 0 else "error:sigRange" if sg >= (1 << nst) else "error:notSubset"
+            if out != want:
+                return self.fail("invalid_sig_accepted", "%s with an invalid signature returned %r instead of raising %s" % (op, out[:80], want), line, out, spec)
+            return
         if out.startswith("bad-op") or "error" in kv or out.startswith("error"):
             return self.fail(op + ":error", "%s on a valid signature ended in an error: %s" % (op, out[:200]), line, out, spec)
         if op == "rt":
@@ -454,10 +466,26 @@ def run(ctx):
                 "single bit, every pair, every all-but-one, the named unions, seeded random (thorough: all 2^mjNSTATE on three "
                 "models); a case is distinct by (model, op line); non-trivial = op on a signature with at least one non-empty component")
     info = run_translator(ctx)
+    if info:
+        # Other checks may run translate/regen_all.py (which runs this translator on *their* VERIF_REPO)
+        # concurrently: make sure what lake compiles is the table of *this* tree.
+        want = open(GEN_LEAN).read()
+        for attempt in range(3):
+            ctx.lake(["build", "MjProof.Props.C26Gen", "drv_c26"])
+            if os.path.exists(GEN_LEAN) and open(GEN_LEAN).read() == want:
+                break
+            with open(GEN_LEAN, "w") as f:
+                f.write(want)
+        else:
+            raise common.Infra("lean/MjProof/Gen/StateTable.lean keeps being modified concurrently")
     ctx.checker_cmd = ("cd /verif && python3 translate/c26_tables.py && cd lean && lake build MjProof.Props.C26 "
                        "MjProof.Props.C26Gen && lake env lean Audit/C26.lean")
     ctx.lean_props(THEOREMS)
-    ctx.lean_props(THEOREMS_GEN, module="MjProof.Props.C26Gen")
+    if info:
+        ctx.lean_props(THEOREMS_GEN, module="MjProof.Props.C26Gen")
+    else:
+        for t in THEOREMS_GEN:
+            ctx.oblige("theorem " + t, "theorem", False, "no generated table: the translator refused the source shape")
     # one audit file listing everything (lean_props rewrites it per call)
     with open(os.path.join(common.LEAN, "Audit", "C26.lean"), "w") as f:
         f.write("import MjProof.Props.C26\nimport MjProof.Props.C26Gen\n" + "".join("#print axioms %s\n" % t for t in THEOREMS + THEOREMS_GEN))
